@@ -187,6 +187,29 @@ def run(ctx):
   ctx.build_property(gen_needed=['Src_query'])
   for name, kw, data in fits.zoo_specs(np.random.default_rng(ctx.seed + 23), variants=False):
     one_spec(ctx, name, kw, data, ('ndarray', 'list', 'callable'), 'float64')
+    # the preprocessor holds some points under several indicators (repeated rows) and the tuples use either indicator;
+    # options that look at the distinct training POINTS (covariance prior / init) must see the same points both ways
+    if fits.KIND[name] in ('pairs', 'triplets', 'quads'):
+      key = {'pairs': 'pairs_idx', 'triplets': 'trip_idx', 'quads': 'quad_idx'}[fits.KIND[name]]
+      dd = dict(data)
+      n0 = len(data['X'])
+      dd['X'] = np.vstack([data['X'], data['X']])            # indicator i + n0 names the same point as i
+      ti = data[key].copy()
+      flip = ctx.rng.random(ti.shape) < 0.5
+      ti[flip] += n0
+      dd[key] = ti
+      kwd = dict(kw)
+      if name in ('ITML', 'LSML', 'SDML'):
+        kwd['prior'] = 'covariance'
+      elif name == 'MMC':
+        kwd['init'] = 'covariance'
+      if name in ('ITML', 'LSML', 'SDML', 'MMC', 'SCML'):
+        ctx.hist('repeated_rows_in_preprocessor', name)
+        try:
+          kwd = fits.sdml_fix_balance(name, kwd, dd)
+          one_spec(ctx, name, kwd, dd, ('ndarray', 'callable'), 'repeated rows')
+        except Exception as ex:
+          ctx.break_tie('correspondence', 'c05_repeated_rows', '%s: %s' % (name, str(ex)[:200]))
     # the same numbers held in a narrow / unsigned integer type by the preprocessor (e.g. 8-bit image data)
     dt = [np.uint8, np.int16, np.uint16, np.int64][int(ctx.rng.integers(0, 4))]
     di = dict(data)
